@@ -119,7 +119,7 @@ const otherDecl = "type Other struct {\n\tA int32\n}\n"
 
 func decorations(b base, thorough bool) []decor {
 	names := []string{"hidden"}
-	types := []string{"int32", "*string", "map[string]int", "func()", "Other"}
+	types := []string{"int32", "*string", "map[string]int", "func()", "Other", "struct{ A int32 }", "func(X int32) error"}
 	if thorough {
 		names, types = allNames, allTypes
 	}
@@ -133,6 +133,12 @@ func decorations(b base, thorough bool) []decor {
 				fs = append(fs, st[si].Fields[pos:]...)
 				st[si].Fields = fs
 				out = append(out, decor{Desc: desc, Structs: st, Extra: extra})
+			}
+			if !thorough {
+				// the other spellings of "unexported", with one type
+				for _, n := range allNames[1:] {
+					ins(fdef{Name: n, Type: "int32"}, fmt.Sprintf("unexported:%s:%s@%s.%d", n, "int32", s.Name, pos), "")
+				}
 			}
 			for _, n := range names {
 				for _, ty := range types {
@@ -527,14 +533,14 @@ func Main() {
 		Level: "exploration",
 		Rule: "program enumeration: for each base struct definition (mini, three nested shapes, document, person without embedding) every insertion, at every field position of every struct of the shape, of (i) an unexported field (names hidden/x/_x/non-ASCII lower case) or (ii) an exported field tagged parquet:\"-\", over a menu of Go types (primitives, pointers, slices, arrays, maps, channels, funcs, interfaces, inline and named structs), " +
 			"and (iii) every replacement of a contiguous run of sibling fields by an embedded struct (also two deep and split), every pair of identical runs in two different structs replaced by one shared embedded type (the same struct embedded at two places of the tree), every embedding combined with an excluded field (dash-tagged or unexported) directly before or after the embedded struct (thorough: also first or last inside it), and (iv) grouped declarations: an unexported name declared together with an exported one (F, hidden T) and adjacent same-typed fields declared as one group (A, B T). Each decorated program is generated, compiled and run next to its base: for every value with <= s constructor nodes (and pairs) the two writers' files must be byte-identical (excluded fields set to garbage), and reading into fresh decorated structs must leave excluded fields zero and return the values. " +
-			"quick uses one name and five types; thorough the full product. distinct = decorated program",
+			"quick uses one name with seven types plus every name with one type; thorough the full product. distinct = decorated program",
 		Assumptions: []string{
 			"one decoration per program, except the pairs (embedding, excluded field next to or inside the embedded struct)",
 			"the expected schema of a decorated struct is derived by the harness's own rules (README) and must equal the base schema, which is itself asserted",
 		},
 		Run:            run,
 		Replay:         replay,
-		QuickBudget:    280 * time.Second,
+		QuickBudget:    420 * time.Second,
 		ThoroughBudget: 60 * time.Minute,
 		MaxShards:      8,
 		MaxConfirm:     3,
